@@ -328,14 +328,27 @@ func c10TokenTable(c *Ctx, rule string) {
 			if strings.HasPrefix(name, "sql.init#") {
 				okRange := false
 				inspectBody(fn.Decl.Body, func(x ast.Node) bool {
-					if fs, ok := x.(*ast.ForStmt); ok {
-						s := exprKey(fs.Init.(*ast.AssignStmt).Rhs[0]) + ";" + exprKey(fs.Cond)
-						if strings.Contains(s, "reserved_word_start") && strings.Contains(s, "+1") && strings.Contains(s, "<reserved_word_end") {
+					if fs, ok := x.(*ast.ForStmt); ok && fs.Init != nil && fs.Cond != nil {
+						if as, isAs := fs.Init.(*ast.AssignStmt); isAs && len(as.Rhs) == 1 {
+							s := exprKey(as.Rhs[0]) + ";" + exprKey(fs.Cond)
+							if strings.Contains(s, "reserved_word_start") && strings.Contains(s, "+1") && strings.Contains(s, "<reserved_word_end") {
+								okRange = true
+							}
+						}
+					}
+					// every token of the table, filtered by the range predicate, is the same set
+					if rs, ok := x.(*ast.RangeStmt); ok && exprKey(rs.X) == "Tokens" && len(fn.Calls(rs.Body, false, "sql.TokenType.IsReservedWord")) > 0 {
+						if isRangePredicate(c.W) {
 							okRange = true
 						}
 					}
 					return true
 				})
+				// the loop may have been moved into a function called from a package-level initialiser
+				if !okRange && fn.w.opaque(fn) != "" {
+					c.Undecided(rule, "sql.init|keyword-range", "not decided: %s", fn.w.opaque(fn))
+					continue
+				}
 				c.Check(okRange, rule, "sql.init|keyword-range", fn.Decl.Pos(), "keywords are taken from (reserved_word_start, reserved_word_end)", "init does not build the keyword map from the open range (reserved_word_start, reserved_word_end)")
 			}
 		}
@@ -616,4 +629,22 @@ func c05KeywordLookup(c *Ctx, rule string) {
 		return true
 	})
 	c.Check(okStrip, rule, f.Name+"|strip-only-strings", f.Decl.Pos(), "quotes are stripped only from tokens the scanner classified as String", "quote stripping of literals is not guarded by ts.cur == String")
+}
+
+// isRangePredicate: TokenType.IsReservedWord is `reserved_word_start < t && t < reserved_word_end`.
+func isRangePredicate(w *World) bool {
+	f := w.F("sql.TokenType.IsReservedWord")
+	if f == nil {
+		return false
+	}
+	ok := false
+	for _, r := range f.Graph().Returns() {
+		if len(r.Results) == 1 {
+			k := exprKey(r.Results[0])
+			if strings.Contains(k, "reserved_word_start") && strings.Contains(k, "reserved_word_end") && strings.Contains(k, "&&") {
+				ok = true
+			}
+		}
+	}
+	return ok
 }
